@@ -4,7 +4,7 @@ Copies /tmp/wt_out/<group>/<ID>/{patch.diff,demo.py,notes.md} to /verif/seeded/<
 import json, os, shutil, sys, subprocess
 g, pid, caught, needs, detail = sys.argv[1:6]
 src = f"/tmp/wt_out/{g}/{pid}"
-dst = f"/verif/seeded/{pid}"
+dst = f"/verif/seeded/{pid}" + os.environ.get("SEED_SUFFIX", "")
 os.makedirs(dst, exist_ok=True)
 for f in ("patch.diff", "demo.py", "notes.md"):
     if os.path.exists(os.path.join(src, f)):
